@@ -122,6 +122,9 @@ def wide_filters(limits=(None,)):
 
 
 def multi_filter_reqs(filters, rnd, n):
+    # (the wide filters stay single: several of them in one REQ match the same events many times over, and the attribution of
+    #  answer items to filters that LimitOK quantifies over grows beyond what TLC will enumerate)
+    filters = [f for f in filters if len(f.get("kinds", [])) < 6]
     out = []
     for _ in range(n):
         k = rnd.choice([2, 2, 3, 5])
